@@ -6,6 +6,13 @@ NOTES = ('Static analysis only: every verdict is computed from the ast of /repo/
          'Exit 2 + ANALYSIS-ERROR means the analysis could not decide (never a verdict).')
 
 CHECKS = {
+    'C18': {
+        'level': 'Structural clauses of C18: NaN-masking of Limit.__call__ (finite values of f returned unchanged, singular entries replaced elementwise, shape kept), '
+                 'direction of approach and evaluation points for above/below/forward/backward, argument forwarding, the Residue multiplier d_z**pole_order with '
+                 'the same d_z, default order, Richardson parameters, dtype-kind flow for complex z0 / spiral path / complex f. Accuracy of the limit not decided.',
+        'note': 'Trusted: abstract interpreter, numpy summaries. _extrapolate is cut off in the exact-algebra runs.',
+        'technique': 'abstract interpretation of Limit / Residue over the data-abstract domain (NaN mask, kinds) and exact algebra (evaluation points, multiplier)',
+    },
     'C19': {
         'level': 'What nd_scipy.Jacobian / Gradient hand to scipy approx_derivative: method-name mapping against the set accepted by the installed SciPy '
                  '(source parsed with ast), every keyword in the signature, fun / step (as rel_step) / args / kwargs / bounds (5 box shapes) / sparsity '
